@@ -135,6 +135,19 @@ def check(program: Program, run: Run) -> None:
             hkey = self_attrs_in(hv)
             extra = sorted(a for a in hkey - attrs if not a.startswith("__"))
             run.ob("C17/R1 hash-key is a subset of eq-key", c.qualname, not extra, detail=f"hash reads {sorted(hkey)}; eq compares {sorted(attrs)}", where=hf.loc())
+            # the class itself as part of the hash key: __eq__ must then compare the exact class, not isinstance
+            h_src, e_src = ast.unparse(hf.node), ast.unparse(ef.node)
+            selfn_h = hf.params[0] if hf.params else "self"
+            hashes_class = f"{selfn_h}.__class__" in h_src or f"type({selfn_h})" in h_src
+            if hashes_class:
+                eq_exact = "__class__" in e_src or "type(" in e_src
+                subs = [k.qualname for k in c.all_subclasses() if k.resolve("__hash__") is hf and k.resolve("__eq__") is ef]
+                okc = eq_exact or not subs
+                run.ob("C17/R1 class identity in the hash key is compared by __eq__", c.qualname, okc, detail=f"subclasses sharing both methods: {subs[:4]}", where=hf.loc())
+                if not okc:
+                    run.finding(f"C17/hash-wider-than-eq:{c.qualname}:__class__",
+                                f"{c.qualname}.__hash__ hashes the object's class, but {ef.qualname} accepts any instance of {c.qualname} (isinstance): a {subs[0]} that compares equal to a {c.qualname} hashes differently, "
+                                "so set/dict membership disagrees with ==", where=hf.loc(), rule="R1")
             if extra:
                 run.finding(f"C17/hash-wider-than-eq:{c.qualname}:{','.join(extra)}",
                             f"{c.qualname}.__hash__ depends on {extra}, which {ef.qualname} does not compare: objects that compare equal can hash differently, so set/dict membership disagrees with ==",
